@@ -38,6 +38,7 @@ type Req struct {
 	Entry  int
 	In     []byte
 	Hist   [][]byte
+	HistEntry []int // optional: entry rule per history step (-1 = Parse() without argument)
 	Memo   bool
 	Size   int
 	U      string
@@ -67,6 +68,7 @@ type Res struct {
 	Bad    []string ` + "`json:\",omitempty\"`" + `
 	NRunes int
 	Hist   []Res    ` + "`json:\",omitempty\"`" + `
+	LateErr []string ` + "`json:\",omitempty\"`" + ` // history mode: every returned error formatted once more after the whole history
 }
 
 func (p *{{.Type}}[U]) act(id int, text string, begin, end int) {
@@ -232,7 +234,8 @@ func history[U Uint](req *Req) (res Res) {
 		res.Panic = "Init error: " + err.Error()
 		return
 	}
-	for _, in := range req.Hist {
+	var kept []error
+	for k, in := range req.Hist {
 		var r Res
 		func() {
 			defer func() {
@@ -243,10 +246,29 @@ func history[U Uint](req *Req) (res Res) {
 			p.Buffer = string(in)
 			p.Trace, p.Events, p.Bad, p.End = nil, nil, nil, 0
 			p.Reset()
-			err := parse(p, req.Entry)
+			entry := req.Entry
+			if k < len(req.HistEntry) {
+				entry = req.HistEntry[k]
+			}
+			err := parse(p, entry)
+			if err != nil {
+				kept = append(kept, err)
+			}
 			collect(p, err, req, &r)
 		}()
 		res.Hist = append(res.Hist, r)
+	}
+	// errors kept by the caller and formatted later: what they say may depend on this instance's own later inputs,
+	// but never on what other instances did meanwhile
+	for _, e := range kept {
+		func() {
+			defer func() {
+				if x := recover(); x != nil {
+					res.LateErr = append(res.LateErr, "PANIC "+fmt.Sprint(x))
+				}
+			}()
+			res.LateErr = append(res.LateErr, e.Error())
+		}()
 	}
 	return
 }
